@@ -470,7 +470,18 @@ impl Hist {
 
     pub fn check_obs(&mut self, after: &str) {
         let Some(s) = self.subj.as_ref() else { return };
-        let o: Obs = self.with_ctx(Ctx::InOther, || s.obs());
+        // the observers take `&self`: a panic in one of them (arithmetic overflow on a huge but
+        // honest upstream hint ...) leaves the subject intact, is caught here and judged
+        let o: Obs = match self.with_ctx(Ctx::InOther, || std::panic::catch_unwind(std::panic::AssertUnwindSafe(|| s.obs()))) {
+            Ok(o) => o,
+            Err(_) => {
+                self.w.violation("C17", "observer_panicked", format!("len / is_empty / size_hint / is_terminated panicked after {after} ({})", self.desc));
+                if !self.kind.is_adapter() {
+                    self.w.violation("C15", "observer_panicked", format!("len / is_empty / size_hint / is_terminated panicked after {after} ({})", self.desc));
+                }
+                return;
+            }
+        };
         let w = &self.w;
         let n = self.held.len();
         let kind = self.kind;
@@ -937,7 +948,7 @@ impl Hist {
         if self.kind.is_stream() {
             // a stream that has just said "no more items" cannot promise more items
             if let Some(s) = self.subj.as_ref() {
-                let o = self.with_ctx(Ctx::InOther, || s.obs());
+                let o = self.with_ctx(Ctx::InOther, || std::panic::catch_unwind(std::panic::AssertUnwindSafe(|| s.obs()))).unwrap_or_default();
                 if let Some((lo, _)) = o.hint {
                     if lo > 0 {
                         w.violation("C17", "lower_bound_after_end", format!("the stream returned None and reports size_hint().0 = {lo} ({})", self.desc));
